@@ -9,7 +9,7 @@ import numpy as np
 import gen_terms
 
 CLASSES = ['LinearGAM', 'LogisticGAM', 'PoissonGAM', 'GammaGAM', 'InvGaussGAM', 'ExpectileGAM']
-FAMILY = {'LinearGAM': ('LIdentity', 'DNormal'), 'ExpectileGAM': ('LIdentity', 'DNormal'), 'LogisticGAM': ('LLogit', 'DBinomial'),
+FAMILY = {'BinomialGAM': ('LLogit', 'DBinomial'), 'LinearGAM': ('LIdentity', 'DNormal'), 'ExpectileGAM': ('LIdentity', 'DNormal'), 'LogisticGAM': ('LLogit', 'DBinomial'),
           'PoissonGAM': ('LLog', 'DPoisson'), 'GammaGAM': ('LLog', 'DGamma'), 'InvGaussGAM': ('LLog', 'DInvGauss')}
 
 
@@ -67,6 +67,10 @@ def gen_scenario(rng, cls=None, regime=None, constraints=False, max_n=60, max_m=
         y = (nprng.rand(n) < p).astype(float)
         if y.min() == y.max():
             y[0] = 1 - y[0]
+    elif cls == 'BinomialGAM':
+        levels = rng.choice([2, 3, 5, 12])
+        p = 1 / (1 + np.exp(-2 * sig))
+        y = np.minimum(nprng.binomial(levels, p), levels - 1).astype(float)   # y == levels trips an assert in _initial_estimate (known)
     elif cls == 'PoissonGAM':
         y = nprng.poisson(np.exp(1.0 + sig)).astype(float)
     else:
@@ -87,11 +91,14 @@ def gen_scenario(rng, cls=None, regime=None, constraints=False, max_n=60, max_m=
         kw['scale'] = float(10 ** rng.uniform(-1, 1))
     if cls == 'ExpectileGAM':
         kw['expectile'] = rng.choice([0.1, 0.25, 0.5, 0.5, 0.8, 0.93])
-    return dict(cls=cls, specs=specs, X=X, y=y, w=w, kw=kw, regime=regime, m=m, n=n, factor_feats=factor_feats)
+    out = dict(cls=cls, specs=specs, X=X, y=y, w=w, kw=kw, regime=regime, m=m, n=n, factor_feats=factor_feats)
+    if cls == 'BinomialGAM':
+        out['levels'] = int(levels)
+    return out
 
 
 def describe(scn):
-    return dict(cls=scn['cls'], regime=scn['regime'], n=scn['n'], m=scn['m'], kw=scn['kw'], specs=scn['specs'],
+    return dict(cls=scn['cls'] + ('(levels=%d)' % scn['levels'] if 'levels' in scn else ''), regime=scn['regime'], n=scn['n'], m=scn['m'], kw=scn['kw'], specs=scn['specs'],
                 weights='none' if scn['w'] is None else ('zeros' if (scn['w'] == 0).any() else 'float'))
 
 
@@ -99,7 +106,12 @@ def build_gam(scn, callbacks=None, **over):
     import pygam
     kw = dict(scn['kw'])
     kw.update(over)
-    gam = getattr(pygam, scn['cls'])(gen_terms.build_termlist(scn['specs']), **kw)
+    if scn['cls'] == 'BinomialGAM':      # generic GAM with a binomial family of `levels` trials and the logit link
+        from pygam.distributions import BinomialDist
+        kw.pop('scale', None)
+        gam = pygam.GAM(gen_terms.build_termlist(scn['specs']), distribution=BinomialDist(levels=scn['levels']), link='logit', **kw)
+    else:
+        gam = getattr(pygam, scn['cls'])(gen_terms.build_termlist(scn['specs']), **kw)
     if callbacks is not None:
         gam.callbacks = callbacks     # assigned after construction: LinearGAM's constructor drops the keyword (S13)
     return gam
